@@ -29,22 +29,37 @@ include!("c14_parts/search.rs");
 include!("c14_parts/text.rs");
 include!("c14_parts/bits.rs");
 include!("c14_parts/fastsearch.rs");
+include!("c14_parts/more.rs");
 
-const GROUPS: &[&str] = &["copy", "compare", "findbyte", "findsub", "findany", "utf8", "crc", "codec", "bits", "hash", "fastsearch"];
+const GROUPS: &[&str] = &["copy", "compare", "findbyte", "findsub", "findany", "utf8", "crc", "codec", "bits", "hash", "fastsearch", "bmi2text", "unicode"];
 
 fn run_group(cx: &mut Cx, g: &str) {
     match g {
-        "copy" => fam_copy(cx),
+        "copy" => {
+            fam_copy(cx);
+            mem_extras(cx);
+        }
         "compare" => fam_compare(cx),
         "findbyte" => fam_findbyte(cx),
         "findsub" => fam_findsub(cx),
         "findany" => fam_findany(cx),
         "utf8" => fam_utf8(cx),
         "crc" => fam_crc(cx),
-        "codec" => fam_codec(cx),
-        "bits" => fam_bits(cx),
+        "codec" => {
+            fam_codec(cx);
+            hex_extras(cx);
+        }
+        "bits" => {
+            fam_bits(cx);
+            bit_extras(cx);
+        }
         "hash" => fam_hash(cx),
         "fastsearch" => fam_fastsearch(cx),
+        "bmi2text" => fam_bmi2text(cx),
+        "unicode" => {
+            fam_unicode(cx);
+            accessor_twins(cx);
+        }
         _ => {
             eprintln!("c14: unknown group {g}");
             std::process::exit(2)
